@@ -1,5 +1,6 @@
 import BoltonsVerif.C16.Proofs
 import BoltonsVerif.C16.Regex
+import BoltonsVerif.C16.Extra
 /-
 C16 — property theorems (statements, short derivations from Proofs.lean, non-vacuity examples).
 
@@ -249,6 +250,16 @@ theorem parse_render_trailing_newline_exact (pe : PE) (h : WFpe pe = true) (hm :
 
 example : WFpe ⟨exFrames.map (·.1), "E".toList, "a".toList⟩ = true ∧ "a".toList ≠ [] := by decide +kernel
 
+/-- the exact extent of known finding C16-trailer-line-in-message: when a (non-empty) message is followed by one
+    more message line of the form `Exception ... ignored`, from_string returns everything but that line -/
+theorem parse_render_trailer_exact (fas : List (Frame × Option Str)) (etype msg tl : Str)
+    (h : WFtextA fas etype msg = true) (hm : msg ≠ []) (ht : isTrailer tl = true) (hs : tl.all notSep = true) :
+    fromString (toStringA fas etype (msg ++ '\n' :: tl)) = .ok ⟨fas.map (·.1), etype, msg⟩ := by
+  unfold fromString; rw [fromStringF_rendered_trailer fas etype msg tl h hm ht hs]; rfl
+
+example : WFtextA exFrames "E".toList "x".toList = true ∧ isTrailer "Exception in thread ignored".toList = true ∧
+    "Exception in thread ignored".toList.all notSep = true := by decide +kernel
+
 /-- a message containing another str.splitlines separator is not recovered -/
 theorem parse_render_false_separator :
     ∃ pe : PE, pe.msg.getLast? ≠ some '\n' ∧ fromString (toString pe) ≠ .ok pe := by
@@ -295,6 +306,30 @@ theorem format_eq_std_partial (frames : List Callpoint) (etype msg : Str) (h : N
   unfold eiExcOnly stdExcOnly
   split <;> simp [List.append_assoc]
 
+def exCp (n : Nat) (f : String) (l : String) : Callpoint := ⟨"/a b/é.py".toList, n, f.toList, l.toList⟩
+
+/-- the exact extent of known finding C16-recursion-collapse: for EVERY list of entries ExceptionInfo.get_formatted
+    is the interpreter's layout with each entry printed on its own (what the interpreter prints while no run is
+    longer than 3) - the only difference to the interpreter is the missing `[Previous line repeated ...]` collapse -/
+theorem format_eq_uncollapsed (frames : List Callpoint) (etype msg : Str) :
+    eiFormat frames etype msg ++ ['\n'] = headerNL ++ frames.flatMap stdFrameStr ++ stdExcOnly etype msg := by
+  unfold eiFormat tbInfoFormat
+  rw [flatMap_tbFrameStr]
+  unfold eiExcOnly stdExcOnly
+  split <;> simp [List.append_assoc]
+
+/-- the two halves of the property meet: from_string reads back what ExceptionInfo.get_formatted prints - every
+    entry's file, line number, function and stripped source text, the type and the message - and to_string()
+    reproduces that text exactly -/
+theorem parse_formatted (frames : List Callpoint) (etype msg : Str) (h : WFpe (peOf frames etype msg) = true) :
+    fromString (eiFormat frames etype msg) = .ok (peOf frames etype msg) ∧
+    (fromString (eiFormat frames etype msg)).map toString = .ok (eiFormat frames etype msg) := by
+  rw [eiFormat_eq_toString]
+  exact ⟨parse_render _ h, render_parse _ h⟩
+
+example : WFpe (peOf [exCp 1 "<module>" "f()\n", exCp 5 "f" "    return g(\"a: b\")  \n", exCp 9 "<lambda>" ""]
+    "pkg.Err".toList "a: b\nc".toList) = true := by decide +kernel
+
 /-- tbutils.print_exception writes exactly the interpreter's text under the same hypothesis -/
 theorem print_exception_eq_std_partial (frames : List Callpoint) (etype msg : Str) (h : NoLongRun frames = true) :
     printException frames etype msg = stdFormat frames etype msg := by
@@ -308,7 +343,6 @@ theorem exc_only_eq_std (etype msg : Str) : eiExcOnly etype msg ++ ['\n'] = stdE
   unfold eiExcOnly stdExcOnly
   split <;> simp
 
-def exCp (n : Nat) (f : String) (l : String) : Callpoint := ⟨"/a b/é.py".toList, n, f.toList, l.toList⟩
 
 example : NoLongRun [exCp 1 "<module>" "f()\n", exCp 5 "f" "    return g()  \n", exCp 5 "f" "    return g()  \n",
                      exCp 5 "f" "    return g()  \n", exCp 9 "<lambda>" ""] = true := by decide +kernel
